@@ -13,8 +13,10 @@ import json, os, re, shutil, subprocess, sys, time, hashlib
 VERIF = os.path.dirname(os.path.dirname(os.path.abspath(__file__)))
 REPO = os.environ.get("QENTEM_REPO", "/repo")
 SPEC = os.path.join(VERIF, "spec")
-BUILD = os.path.join(VERIF, "build")
-OUT = os.path.join(VERIF, "out")
+# (seed evaluation runs the same checks against a scratch copy of the repository: tools/seed_eval.py sets these)
+BUILD = os.environ.get("QENTEM_BUILD") or os.path.join(VERIF, "build")
+OUT = os.environ.get("QENTEM_OUT") or os.path.join(VERIF, "out")
+EVIDENCE = os.environ.get("QENTEM_EVIDENCE") or os.path.join(VERIF, "evidence")
 TLA_JAR = "/opt/veriftools/tla/tla2tools.jar:/opt/veriftools/tla/CommunityModules-deps.jar"
 
 
@@ -273,7 +275,7 @@ class Check:
         if old != h.hexdigest():
             with open(stamp, "w") as f:
                 f.write(h.hexdigest())
-        cmd = ["make", "-s", "-C", VERIF, "-j16", "REPO=" + REPO] + ["build/" + x for x in targets]
+        cmd = ["make", "-s", "-C", VERIF, "-j16", "REPO=" + REPO, "B=" + BUILD] + [os.path.join(BUILD, x) for x in targets]
         r = subprocess.run(cmd, stdout=subprocess.PIPE, stderr=subprocess.STDOUT, text=True)
         if r.returncode != 0:
             print(r.stdout[-6000:])
@@ -505,8 +507,8 @@ class Check:
         ev = {"property_id": self.pid, "tier": self.tier, "seed": self.seed, "level": self.level,
               "coverage": self.cov, "assumptions": (assumptions or []) + self.assumptions,
               "wall_s": round(time.time() - self.t0, 1), "violations": self.violations}
-        os.makedirs(os.path.join(VERIF, "evidence"), exist_ok=True)
-        with open(os.path.join(VERIF, "evidence", self.pid + ".json"), "w") as f:
+        os.makedirs(EVIDENCE, exist_ok=True)
+        with open(os.path.join(EVIDENCE, self.pid + ".json"), "w") as f:
             json.dump(ev, f, indent=1, default=str)
         self.log("done: evaluations=%d distinct=%d states=%d validated=%d violations=%d known=%s wall=%.1fs" % (
             self.cov["evaluations"], self.cov["distinct_nontrivial"], self.cov["states"],
